@@ -9,9 +9,11 @@ EXPLANATION = (
     "into a fused group (`index_map[j] = ..`) is reachable only with `is_jump_target[j]` tested false since j last changed (path-sensitive "
     "exploration that also tracks the has_write flag); (ONLY) the pass constructs no instruction except the WriteTop placeholder, WritePath, "
     "LoadPath and the reconstructed LoadName — everything else is moved over unchanged by mem::replace — and the index map has len+1 entries "
-    "and is written at i on every outer iteration; every jump payload is rewritten through the index map. NOT decided: semantic equality of "
-    "the fused LoadPath/WritePath arms with the unfused sequence (behavioural).")
-NOT_DECIDED = "semantic equivalence of fused VM arms with the unfused sequence"
+    "and is written at i on every outer iteration; every jump payload is rewritten through the index map; (FUSED) one clause of the fused arms' "
+    "agreement with the unfused sequence: in LoadPath a missing attribute yields undefined only behind a position test whose other edge "
+    "raises the field error (last segment only), in WritePath a missing attribute always raises it; (DUMPVAR) both sides treat the magic "
+    "context variable alike. NOT decided: the remaining semantic equality of the fused arms with the unfused sequence (behavioural).")
+NOT_DECIDED = "semantic equivalence of fused VM arms with the unfused sequence beyond the missing-attribute rule and the magic variable"
 ASSUMPTIONS = []
 
 JUMP_REVIEWED = {"Jump", "PopJumpIfFalse", "JumpIfFalseOrPop", "JumpIfTrueOrPop", "Iterate"}
@@ -28,6 +30,71 @@ def run(ctx, rep):
         check_guard(crate, opt, rep, cfg)
         check_only(crate, opt, rep, cfg)
         check_dumpvar(crate, opt, vm, rep, cfg)
+        check_fused_load(crate, vm, rep, cfg)
+
+
+def check_fused_load(crate, vm, rep, cfg):
+    """C09.FUSED — the fused LoadPath arm keeps the unfused sequence's rule for a missing attribute: only the LAST segment of the path may
+    read as undefined; a missing attribute at an earlier position raises the field error (in the unfused code the next LoadAttr would hit an
+    undefined parent). Structurally: the `undefined` outcome on the None edge of get_attr lies on the not-taken edge of a position comparison
+    whose taken edge constructs the error."""
+    import rrec
+    import rpanic
+    from props.c03 import vm_arm
+    reg = vm_arm(vm, crate, "LoadPath")
+    ga = [(bb, t) for bb, t in vm.calls(sorted(reg)) if callee_def(t).endswith("value::Value::get_attr")]
+    ok = len(ga) == 1
+    why = "get_attr call of the LoadPath arm not found (%d)" % len(ga)
+    if ok:
+        g = ga[0][0]
+        some_t = {tgt for sb, tgt in rrec.ok_edges_of_call(vm, crate, g)}
+        # the None side: successors of the Option switch that are not the Some edge
+        none_t = set()
+        for sb, tgt in rrec.ok_edges_of_call(vm, crate, g):
+            none_t |= {x for x in vm.succ[sb] if x != tgt and vm.term(x)["k"] != "unreachable"}
+        none_reg = {x for t0 in none_t for x in vm.reach_from(t0) if vm.dominates(t0, x)} & reg
+        # "reads as undefined": a named bool flag set to true, or Value::undefined() itself, inside the None region
+        outcomes = [bb for bb, idx, st in vm.stmts(sorted(none_reg)) if idx != "t" and st.get("k") == "assign" and not st["pl"]["p"] and vm.local_ty(st["pl"]["l"]) == "bool"
+                    and vm.local_name(st["pl"]["l"]) and st["rv"]["k"] == "use" and st["rv"]["op"]["k"] == "const" and str(st["rv"]["op"].get("v")) == "1"] + \
+                   [bb for bb, t in vm.calls(sorted(none_reg)) if callee_def(t).endswith("value::Value::undefined")]
+        ok = bool(outcomes)
+        why = "no `undefined` outcome found on the None edge of get_attr"
+        for ob in outcomes:
+            guarded = False
+            for sb in sorted(none_reg):
+                st = vm.term(sb)
+                if st["k"] != "switch" or not vm.dominates(sb, ob) or sb == ob:
+                    continue
+                if not rpanic.cmp_of(vm, st["op"]):
+                    continue
+                edges = list(st["targets"]) + [["other", st["otherwise"]]]
+                to_ob = [tgt for v, tgt in edges if vm.dominates(tgt, ob) and tgt != sb]
+                others = [tgt for v, tgt in edges if tgt not in to_ob]
+                err = any(any(callee_def(t2).endswith("undefined_field_error") for b2, t2 in vm.calls(sorted({x for x in vm.reach_from(o) if vm.dominates(o, x)}))) for o in others)
+                if to_ob and err:
+                    guarded = True
+            if not guarded:
+                ok = False
+                why = "a missing attribute reads as undefined at any position of the path (no position test with an error on its other edge dominates %s)" % vm.where(ob)
+    rep.add("C09.FUSED", "C09.FUSED:LoadPath:missing-intermediate-is-an-error", ok, vm.where(ga[0][0]) if ga else vm.where(0), "in the fused LoadPath arm a missing attribute yields "
+            "undefined only behind a position comparison whose other edge raises undefined_field_error (last segment only, like LoadName + LoadAttr*)"
+            + ("" if ok else " — VIOLATED: " + why))
+    # WritePath: a missing attribute is always an error (writing undefined is one anyway)
+    reg = vm_arm(vm, crate, "WritePath")
+    ga = [(bb, t) for bb, t in vm.calls(sorted(reg)) if callee_def(t).endswith("value::Value::get_attr")]
+    ok = len(ga) == 1
+    if ok:
+        g = ga[0][0]
+        for sb, tgt in rrec.ok_edges_of_call(vm, crate, g):
+            for o in [x for x in vm.succ[sb] if x != tgt and vm.term(x)["k"] != "unreachable"]:
+                r = {x for x in vm.reach_from(o) if vm.dominates(o, x)}
+                if not any(callee_def(t2).endswith("undefined_field_error") for b2, t2 in vm.calls(sorted(r))):
+                    ok = False
+                heads = {bb for bb, t in find_calls(vm, ["parsing::instructions::Chunk::get"])}
+                if vm.reach_from(o, removed_blocks=frozenset(bb2 for bb2, t2 in vm.calls() if callee_def(t2).endswith("undefined_field_error"))) & heads:
+                    ok = False
+    rep.add("C09.FUSED", "C09.FUSED:WritePath:missing-attribute-is-an-error", ok, vm.where(ga[0][0]) if ga else vm.where(0), "in the fused WritePath arm the None edge of get_attr reaches "
+            "the next instruction only through undefined_field_error (never prints a missing field)" + ("" if ok else " — VIOLATED"))
 
 
 def variant_switches(body, crate, adt_suffix):
